@@ -46,7 +46,7 @@ struct SettingsK {
     struct vs cppcheckCfgProductName, userDefines, premiumArgs;
     struct vsl userUndefs, includePaths, libraries;
     _Bool checkConfiguration, force;
-    int maxConfigsOption; unsigned checkLevel, standards_c, standards_cpp, enforcedLang;
+    int maxConfigsOption, maxConfigsProject; unsigned checkLevel, standards_c, standards_cpp, enforcedLang;
     struct EG severity, certainty;
     struct PlatformK platform;
     struct AddonInfoK addonInfos[1]; size_t addonInfos_n;
@@ -220,6 +220,23 @@ def split_chain(stmt):
     return parts
 
 
+SETTINGS_METHODS = set()
+
+
+def extract_settings_method(kb, name):
+    """inline `int NAME() const` of class Settings (lib/settings.h) as `static int Settings_NAME(const struct SettingsK *S)`"""
+    loc = extract.locate_function("lib/settings.h", r'^\s*int\s+%s\s*\(\s*\)\s*const' % re.escape(name))
+    kb.add_located("Settings::%s" % name, loc)
+    sig, body = extract.body_of(loc.text)
+    consts = dict(re.findall(r'const\s+int\s+Settings::(\w+)\s*=\s*(-?\d+)\s*;', extract.read("lib/settings.cpp")))
+    body = extract.strip_comments(body)
+    body = re.sub(r'\b(%s)\.empty\(\)' % "|".join(STR_FIELDS), r'(S->\1.n == 0)', body)
+    body = re.sub(r'(?<![\w>.])(%s)\b' % "|".join(INT_FIELDS + BOOL_FIELDS + ["maxConfigsProject"]), r'S->\1', body)
+    for k, v in consts.items():
+        body = re.sub(r'(?<![\w>.])%s\b' % k, "(%s)" % v, body)
+    return "static int Settings_%s(const struct SettingsK *S) %s\n" % (name, body)
+
+
 def lower_operand(e, loopvars):
     """one operand of `toolinfo << e` -> C statement appending it to the sink."""
     e = e.strip()
@@ -247,6 +264,11 @@ def lower_operand(e, loopvars):
         if f in INT_FIELDS:
             return "vout_int(toolinfo, (long long)S->%s);" % f
         raise extract.ExtractError("K20: toolinfo << mSettings.%s: member not in the kernel's Settings model" % f)
+    m = re.match(r'^mSettings\.(\w+)\(\)$', e)
+    if m:
+        # an int-valued inline const member function of Settings: extracted from lib/settings.h and called
+        SETTINGS_METHODS.add(m.group(1))
+        return "vout_int(toolinfo, (long long)Settings_%s(S));" % m.group(1)
     m = re.match(r'^(\w+)\.(name|args)$', e)
     if m and loopvars.get(m.group(1)) == "addonInfos":
         return "vout_vs(toolinfo, &S->addonInfos[%s_i].%s);" % (m.group(1), m.group(2))
@@ -312,9 +334,11 @@ def build(ctx):
     kb.add_located("CppCheck::calculateHash [toolinfo composition]", reg, "region")
     t, k = located_rules(reg, [], ID)
     t = extract.strip_comments(t)
+    SETTINGS_METHODS.clear()
     t, n = lower_region(t)
     kb.rules_fired = k + n
-    text = (_common.BASE + '#include "vout.h"\n#define CPPCHECK_VERSION_STRING "2.x"\n' + "enum Severity %s;\nenum Certainty %s;\n" % (sev, cer) + PRELUDE +
+    methods = "".join(extract_settings_method(kb, nm) for nm in sorted(SETTINGS_METHODS))
+    text = (_common.BASE + '#include "vout.h"\n#define CPPCHECK_VERSION_STRING "2.x"\n' + "enum Severity %s;\nenum Certainty %s;\n" % (sev, cer) + PRELUDE + methods +
             "void toolinfo_region(struct vout *toolinfo, const struct SettingsK *S)\n{\n%s\n}\n" % t)
     extract.residue_scan(text, ID)
     # family harnesses
